@@ -7,7 +7,10 @@ Decided clauses (each is a panic some input reaches if the clause breaks):
       constant, comes from a never-zero producer, or is control-dependent on the excluding comparison
   R3  the result of [[Call]]/[[Construct]] is never treated as infallible (js_expect / expect / unwrap):
       every call can fail with a RuntimeLimitError at the limit boundary
-  R4  inline-cache slot index provenance (an out-of-bounds storage[slot.index] is a panic)  [= C06-R4]
+      (implemented, not armed: no boundary configuration reproduced yet)
+  R4  the completion record of Context::run / GeneratorContext::resume is consumed, and never asserted to be
+      non-throwing (an uncatchable limit error is a Throw record: the assert aborts the process)   [= C08-R4]
+  (inline-cache slot index provenance, an out-of-bounds storage[slot.index] panic, is decided under C06-R4)
 Not decided: the ≈650 other expect/index sites whose infallibility depends on run-time values.
 """
 import re
@@ -343,7 +346,10 @@ def r3(db, rep):
 def run(db, rep, tier):
     c03.r1(db, rep)
     r2(db, rep)
-    # R3 is reported under C08 (R5) where its boundary configurations belong; see DESIGN.md
+    # R3 ([[Call]] results treated as infallible) is implemented but not armed; see DESIGN.md
+    # R4: completion records of run/resume are never asserted to be non-throwing (shared with C08-R4)
+    import c08
+    c08.r4(db, rep)
     rep.assumptions += [
         "R2 covers the always-on arithmetic panics only; debug-only overflow asserts (Add/Sub/Mul) are not decided",
         "asserts in const/static initialisers are compile-time (CTFE) and cannot fire at run time",
